@@ -92,10 +92,12 @@ def firstFails (P M : MG) : List String :=
   (if ancestralB M then [] else ["not-ancestral"]) ++
   (if noNewUCB P M then [] else ["new-unshielded-collider"])
 
+/-- the two graphs answer every enumerated query alike -/
+def sameSepB (M0 M : MG) : Bool := (queries M0.nodes).all fun q => sepOf M0 q == sepOf M q
+
 def secondFails (M0 M : MG) : List String :=
   (if ancestralB M && M.un.isEmpty then [] else ["not-a-mag"]) ++
   (if maximalB M then [] else ["not-maximal"]) ++
-  (if sameNodes M0.nodes M.nodes && (queries M0.nodes).all (fun q => sepOf M0 q == sepOf M q) then []
-   else ["not-markov-equivalent"])
+  (if sameNodes M0.nodes M.nodes && sameSepB M0 M then [] else ["not-markov-equivalent"])
 
 end C09
